@@ -244,6 +244,46 @@ def safe_eval_scenario():
   return scenario
 
 
+def literal_grammar():
+  """(text, expected python value) for every literal of the bounded grammar: what str() of a quantizer option can print."""
+  out = []
+  for k in list(range(-33, 34)) + [64, 127, 128, 255, 256, 1024, 2048, 65536, -128, -256]:
+    out.append((str(k), k))
+  fl = [k / 8.0 for k in range(-40, 41)] + [1e-07, 1e-3, 0.33, 0.125, 2.5e+20, 1e+16, 6.0, 3.4028235e+38, 1.5e-10, -1e-07]
+  for f in fl:
+    out.append((str(f), f))
+  out += [("True", True), ("False", False), ("None", None)]
+  for t in ("auto", "auto_po2", "floor", "rnd", "channels_last", "x"):
+    out.append(("'%s'" % t, t))
+    out.append(('"%s"' % t, t))
+  for a in (-1, 0, 1, 2, 3):
+    for b in (0, 1, 2, 16):
+      out.append(("[%d %d]" % (a, b), [a, b]))
+      out.append(("[%d %d %d]" % (a, b, a), [a, b, a]))
+  out.append(("[0.5 1.5]", [0.5, 1.5]))
+  return out
+
+
+def literals_scenario():
+  def scenario(ip):
+    s = Scen()
+    ga = ip.find("qkeras/safe_eval.py::GetArg")
+    bad = []
+    lits = literal_grammar()
+    for text, exp in lits:
+      r = run_call(ip, ga, [text])
+      ok = r[0] == "return" and type(r[1]) is type(exp) and r[1] == exp
+      if not ok:
+        bad.append("%r -> %r (expected %r)" % (text, r[1], exp))
+    s.info["literals"] = len(lits)
+    if bad:
+      s.info["raised"] = "; ".join(bad[:10])
+    s.replay = {"literals": len(lits), "first_bad": bad[0] if bad else None}
+    s.claim("literal_values", not bad)
+    return s
+  return scenario
+
+
 def cases(tier):
   out = []
   from pyvc import contract as C
@@ -264,4 +304,8 @@ def cases(tier):
                       getparams_scenario(pat), replay_kind=None, assumptions=ASSUME, term_mode=True))
   out.append(Case(PROP, "qkeras/safe_eval.py::safe_eval", "dispatch", safe_eval_scenario(), replay_kind=None,
                   assumptions=ASSUME))
+  out.append(Case(PROP, "qkeras/safe_eval.py::GetArg", "literals", literals_scenario(), replay_kind=None, assumptions=ASSUME,
+                  bounded="GetArg executed concretely on every literal of a fixed grammar (%d literals: ints, floats as "
+                          "printed by str(), True/False/None, quoted names, space-separated number lists); exhaustive over "
+                          "that grammar, not over all strings" % len(literal_grammar())))
   return out
